@@ -1,6 +1,6 @@
-"""The one fact of waddrmgr/scoped_manager.go that the C08 model takes as a
-parameter, regenerated from the repository's current source into
-coq/Generated/AddrCache.v:
+"""The facts of waddrmgr/scoped_manager.go that the C08 model depends on,
+regenerated from the repository's current source into coq/Generated/AddrCache.v.
+One is a parameter of the model (both values are covered by the theorems):
 
   next_caches_read_back : bool
       true  - nextAddresses reads every address it has just written back with
@@ -10,17 +10,37 @@ coq/Generated/AddrCache.v:
               (loadAddress) and the cache is only filled by the OnCommit
               closure.
 
-Also checked (the model relies on them; anything else raises, so that the check
-reports a broken obligation instead of silently keeping an old value):
-  * the next indices and the last addresses are assigned ONLY inside the
-    `onCommit := func() { ... }` closure of nextAddresses, which also adds the
-    new addresses to s.addrs, and the closure is registered with
-    ns.Tx().OnCommit(onCommit);
-  * extendAddresses assigns s.addrs / next index / last address directly
-    (no OnCommit); RenameAccount assigns acctInfo.acctName directly, once,
-    after its type switch over default / watch-only account rows.
+Three are assumptions the model transcribes; Properties/C08.v carries the
+obligation that each of them is `true` (C08_model_assumptions_hold_in_source):
+
+  next_commits_memory_in_closure
+      the next indices and the last addresses are assigned ONLY inside the
+      `onCommit := func() { ... }` closure of nextAddresses, which also adds
+      the new addresses to s.addrs, and the closure is registered with the
+      database transaction (ns.Tx().OnCommit(onCommit), directly or through a
+      local holding ns.Tx());
+  extend_updates_memory_eagerly
+      extendAddresses assigns s.addrs / next index / last address directly
+      (no OnCommit);
+  rename_updates_cached_name
+      RenameAccount assigns acctInfo.acctName directly, once, after its type
+      switch over default / watch-only account rows.
+
+Two paths (the Generated file says which ran: `(* facts source: source | probe *)`):
+
+  source  (primary) the shape of the four functions is read with regular
+          expressions; shapes that are syntactically equivalent are accepted
+          (field order inside the closure, hoisted locals, the transaction
+          handle kept in a local before OnCommit is called on it).
+  probe   (fallback, only when the shape is NOT recognised) every fact is
+          determined behaviourally by running the code built from `repo`
+          through the harness module (harness/cmd/extract-c08) on the witness
+          scenarios of that fact - see probe_facts.
+
+main() raises only if BOTH paths fail (the message carries both reasons);
+bin/extract turns that into a broken obligation of C08, never a crash.
 """
-import os, re
+import hashlib, json, os, re, shutil, subprocess
 
 
 class ExtractError(Exception):
@@ -68,7 +88,7 @@ ASSIGN_IDX = re.compile(r"acctInfo\.(nextExternalIndex|nextInternalIndex|lastExt
 ASSIGN_ADDRS = re.compile(r"s\.addrs\[[^\]]*\]\s*=[^=]")
 
 
-def main(repo, outdir, write_if_changed):
+def source_facts(repo):
     path = os.path.join(repo, "waddrmgr", "scoped_manager.go")
     src = strip_comments(open(path).read())
 
@@ -78,11 +98,19 @@ def main(repo, outdir, write_if_changed):
         raise ExtractError("%s: nextAddresses: `onCommit := func()` closure not found" % path)
     ci, cj = closure_body(nb, m.end() - 1)
     before, closure, after = nb[:m.start()], nb[ci:cj], nb[cj:]
-    if not re.search(r"ns\.Tx\(\)\.OnCommit\(\s*onCommit\s*\)", after):
-        raise ExtractError("%s: nextAddresses: the closure is not registered with ns.Tx().OnCommit" % path)
+    # registration: ns.Tx().OnCommit(onCommit), or x := ns.Tx() ... x.OnCommit(onCommit)
+    # with x assigned exactly once
+    registered = len(re.findall(r"ns\.Tx\(\)\.OnCommit\(\s*onCommit\s*\)", after))
+    for mm in re.finditer(r"\b(\w+)\s*:=\s*ns\.Tx\(\)", after):
+        x = mm.group(1)
+        if len(re.findall(r"\b%s\s*:?=[^=]" % re.escape(x), after)) == 1:
+            registered += len(re.findall(r"\b%s\.OnCommit\(\s*onCommit\s*\)" % re.escape(x), after[mm.end():]))
+    if registered != 1 or len(re.findall(r"OnCommit\(", nb)) != 1:
+        raise ExtractError("%s: nextAddresses: the closure is not registered exactly once with the transaction's OnCommit" % path)
     if ASSIGN_IDX.search(before) or ASSIGN_IDX.search(after):
         raise ExtractError("%s: nextAddresses assigns an index / last address outside its OnCommit closure" % path)
-    if len(ASSIGN_IDX.findall(closure)) != 4 or not ASSIGN_ADDRS.search(closure):
+    if sorted(ASSIGN_IDX.findall(closure)) != sorted(["nextExternalIndex", "nextInternalIndex", "lastExternalAddr", "lastInternalAddr"]) \
+            or not ASSIGN_ADDRS.search(closure):
         raise ExtractError("%s: nextAddresses: OnCommit closure does not set both indices, both last addresses and s.addrs" % path)
     if ASSIGN_ADDRS.search(before) or ASSIGN_ADDRS.search(after):
         raise ExtractError("%s: nextAddresses assigns s.addrs directly outside its OnCommit closure" % path)
@@ -113,19 +141,175 @@ def main(repo, outdir, write_if_changed):
     if len(assigns) != 1 or dflt < 0 or assigns[0] < dflt or "case *dbWatchOnlyAccountRow" not in rn[:dflt]:
         raise ExtractError("%s: RenameAccount: the cached name is not updated once, after the row type switch "
                            "(model: both account kinds get the same update)" % path)
+    return dict(rb=rb, next_in_closure=True, extend_eager=True, rename_eager=True)
 
-    text = """(** GENERATED by lib/extract_c08.py from waddrmgr/scoped_manager.go - do not edit;
+
+def _run_probe(repo):
+    """build harness/cmd/extract-c08 against `repo` and run it"""
+    import vlib
+    with vlib.Lock("go"):
+        os.makedirs(os.path.join(vlib.WORK, "bin"), exist_ok=True)
+        modflag = []
+        if repo == "/repo":
+            shutil.copyfile(os.path.join(repo, "go.sum"), os.path.join(vlib.HARNESS, "go.sum"))
+        else:
+            alt = os.path.join(vlib.WORK, "extract_c08_%s.mod" % hashlib.sha1(repo.encode()).hexdigest()[:8])
+            txt = open(os.path.join(vlib.HARNESS, "go.mod")).read().replace("=> /repo", "=> " + repo)
+            open(alt, "w").write(txt)
+            shutil.copyfile(os.path.join(repo, "go.sum"), alt[:-4] + ".sum")
+            modflag = ["-modfile=" + alt]
+        exe = os.path.join(vlib.WORK, "bin", "extract-c08")
+        p = subprocess.run(["go", "build"] + modflag + ["-o", exe, "./cmd/extract-c08"], cwd=vlib.HARNESS,
+                           env=vlib.GOENV, stdout=subprocess.PIPE, stderr=subprocess.PIPE, text=True, timeout=900)
+        if p.returncode != 0:
+            raise ExtractError("probe: harness/cmd/extract-c08 does not build against %s: %s" % (repo, (p.stdout + p.stderr)[-1500:]))
+    p = subprocess.run([exe], cwd=vlib.WORK, stdout=subprocess.PIPE, stderr=subprocess.PIPE, text=True, timeout=300)
+    if p.returncode != 0:
+        raise ExtractError("probe: extract-c08 failed: %s" % p.stderr[-1500:])
+    return json.loads(p.stdout)
+
+
+def probe_facts(repo):
+    """Facts determined by running the real address manager (Create with fast scrypt, scope BIP0084, unlocked, bbolt
+    file behind harness/internal/abortdb).  Every scenario is run in 12 instances: the transaction is rolled back by a
+    caller error / walletdb.ErrDryRunRollBack / a failing commit, on the external and the internal branch, for 1 and
+    2 addresses, with cold caches on a new database and with warm caches after committed issuance.
+
+    next_caches_read_back - the witness of finding S4 (corpus/C08/s4_dry_run_issuance_phantom_address.json,
+      C08_dry_run_issuance): NextAddresses inside a transaction that is rolled back, then Address(a) of every returned
+      address in a later read transaction.  The database does not hold the address (checked with a restarted
+      manager; addresses it knows are left out) and nothing but nextAddresses ran, so Address(a) succeeds iff
+      nextAddresses left it in the cache before commit.  All found -> true, none
+      found -> false, a mix is not a behaviour the model has -> the probe path fails.
+
+    next_commits_memory_in_closure - the witnesses of 'index advanced without commit' and of 'closure not run':
+      (a) the same rolled-back issuance: AccountProperties' key count of the branch and LastAddress are unchanged,
+      the other branch is unchanged, a restarted manager (fresh Open on a copy of the file) reports the same count,
+      and the next COMMITTED issuance returns exactly the indices the rolled-back one returned (= what the restarted
+      manager issues).  An index or last address assigned outside the OnCommit closure shows as an advanced count /
+      a skipped index.  (b) a committed issuance of n addresses: the count grows by n, LastAddress is the last
+      issued one, every issued address is known, the restarted manager agrees, and the following committed issuance
+      starts at before+n.  A closure that is not registered (or does not assign a field) shows as an unchanged
+      count, a stale last address or a re-issued index.  true iff nothing of this shows in any instance.
+
+    extend_updates_memory_eagerly - the witness of finding S10 (corpus/C08/s10_extend_in_failed_commit.json,
+      w_extend): ExtendAddresses to index next+n inside a rolled-back transaction; the key count afterwards is
+      next+n+1 iff extendAddresses assigned the index before commit, and unchanged iff it defers it.  All advanced
+      -> true, none -> false, a mix fails the probe path.
+
+    rename_updates_cached_name - the witnesses of finding S11 and of the seeded 'watch-only arm forgets the cache'
+      change (corpus/C08/s11_rename_in_aborted_tx.json, w_rename): for the default account, a new default account,
+      an imported xpub account and one with a schema override: AccountProperties (caches the account), a COMMITTED
+      RenameAccount - the cached name must be the new one (as AccountName, which reads the database, says) - then a
+      rolled-back RenameAccount - the cached name must be the rolled-back one while the database keeps the committed
+      one.  true iff all instances behave so (the model updates the cache before commit, for both row kinds); any
+      instance that keeps the old cached name after the committed rename, or does not show the rolled-back name,
+      makes the fact false."""
+    obs = _run_probe(repo)
+    n = 0
+    # read-back
+    # only addresses a restarted manager does not know can be phantoms
+    flags = [f for inst in obs["readback"] for f, d in zip(inst["found"], inst["on_disk"]) if not d]
+    n += len(obs["readback"])
+    if not flags:
+        raise ExtractError("probe: no read-back observation")
+    if all(flags):
+        rb = True
+    elif not any(flags):
+        rb = False
+    else:
+        raise ExtractError("probe: rolled-back issuance leaves SOME of its addresses in the cache: %s" % obs["readback"][:3])
+    # issuance
+    ok, why = True, ""
+    for i in obs["next_abort"]:
+        n += 1
+        good = (i["after"] == i["before"] and i["other_after"] == i["other_before"] and i["last1"] == i["last0"]
+                and i["restart_next"] == i["before"] and i["reissued"] == i["issued"]
+                and i["issued"] == list(range(i["before"], i["before"] + i["n"])))
+        if not good and ok:
+            ok, why = False, "rolled-back issuance: %s" % i
+    for i in obs["next_commit"]:
+        n += 1
+        good = (i["after"] == i["before"] + i["n"] and i["last"] == i["before"] + i["n"] - 1 and all(i["found"])
+                and i["issued"] == list(range(i["before"], i["before"] + i["n"]))
+                and i["restart_next"] == i["after"] and i["following"] == i["before"] + i["n"])
+        if not good and ok:
+            ok, why = False, "committed issuance: %s" % i
+    next_in_closure = ok
+    # extend
+    adv = [i["after"] == i["to"] + 1 for i in obs["extend_abort"]]
+    same = [i["after"] == i["before"] for i in obs["extend_abort"]]
+    n += len(adv)
+    if adv and all(adv):
+        extend_eager = True
+    elif same and all(same):
+        extend_eager = False
+    else:
+        raise ExtractError("probe: rolled-back ExtendAddresses neither advances nor keeps the index uniformly: %s" % obs["extend_abort"][:3])
+    # rename
+    rename_eager, rwhy = True, ""
+    for i in obs["rename"]:
+        n += 1
+        good = (i["committed_mem"] == "second" and i["committed_disk"] == "second"
+                and i["aborted_mem"] == "third" and i["aborted_disk"] == "second")
+        if not good and rename_eager:
+            rename_eager, rwhy = False, "%s" % i
+    detail = []
+    if not next_in_closure:
+        detail.append("next_commits_memory_in_closure=false: " + why)
+    if not rename_eager:
+        detail.append("rename_updates_cached_name=false: " + rwhy)
+    return dict(rb=rb, next_in_closure=next_in_closure, extend_eager=extend_eager, rename_eager=rename_eager,
+                nprobes=n, detail="; ".join(detail))
+
+
+def render(f, source_line):
+    b = lambda x: "true" if x else "false"   # noqa: E731
+    return """(** GENERATED by lib/extract_c08.py from waddrmgr/scoped_manager.go - do not edit;
     bin/extract rewrites it from the current source. *)
+(* facts source: %s *)
 
 (** nextAddresses reads the address it has just written back INTO the address
-    cache before the database transaction commits (loadAndCacheAddress). *)
+    cache before the database transaction commits (loadAndCacheAddress).
+    A parameter of the model: the theorems cover both values. *)
 Definition next_caches_read_back : bool := %s.
-""" % ("true" if rb else "false")
-    write_if_changed(os.path.join(outdir, "AddrCache.v"), text)
+
+(** Assumptions the model transcribes (Properties/C08.v obliges each to be true). *)
+
+(** nextAddresses updates next index / last address / address cache only in
+    its OnCommit closure, and the closure is registered with the transaction. *)
+Definition next_commits_memory_in_closure : bool := %s.
+
+(** extendAddresses updates next index / last address / address cache at once,
+    before commit. *)
+Definition extend_updates_memory_eagerly : bool := %s.
+
+(** RenameAccount updates the cached account name at once, for default and
+    watch-only account rows alike. *)
+Definition rename_updates_cached_name : bool := %s.
+""" % (source_line, b(f["rb"]), b(f["next_in_closure"]), b(f["extend_eager"]), b(f["rename_eager"]))
+
+
+def main(repo, outdir, write_if_changed):
+    try:
+        facts = source_facts(repo)
+        source_line = "source (shape of nextAddresses / extendAddresses / RenameAccount / loadAddress recognised)"
+    except (ExtractError, OSError, ValueError) as e1:
+        why = str(e1).replace("*)", "* )").replace("(*", "( *")
+        try:
+            facts = probe_facts(repo)
+        except (ExtractError, OSError, ValueError, KeyError, TypeError, subprocess.SubprocessError) as e2:
+            raise ExtractError("source shape not recognised (%s) AND probing the built code failed (%s)" % (e1, e2))
+        source_line = ("probe (source shape not recognised: %s; facts determined by %d scenario instances run on the code built "
+                       "from the repository, harness/cmd/extract-c08%s)" % (
+                           why[:300], facts["nprobes"], ("; " + facts["detail"][:400]) if facts["detail"] else ""))
+        source_line = source_line.replace("*)", "* )")
+    write_if_changed(os.path.join(outdir, "AddrCache.v"), render(facts, source_line))
 
 
 if __name__ == "__main__":
     import sys
+    sys.path.insert(0, os.path.dirname(os.path.abspath(__file__)))
     def w(p, t):
         print(p); print(t)
     main(sys.argv[1] if len(sys.argv) > 1 else "/repo", "/tmp", w)
